@@ -113,6 +113,9 @@ pub struct SrcState {
     /// updates still to apply in this step: (after this many calls, new version, new timing)
     pub pending: Vec<(u64, Version, u64)>,
     pub ready: bool,
+    /// the transport dies when the library enters the source with this many calls made in the current step
+    pub cut_at: Option<u64>,
+    pub dead: Arc<std::sync::atomic::AtomicBool>,
 }
 
 impl SrcState {
@@ -135,6 +138,9 @@ impl SrcState {
         while let Some(pos) = self.pending.iter().position(|p| p.0 <= self.calls) {
             let (_, v, t) = self.pending.remove(pos);
             self.push_version(v, t);
+        }
+        if self.cut_at == Some(self.calls) {
+            self.dead.store(true, std::sync::atomic::Ordering::SeqCst);
         }
         self.calls += 1;
     }
@@ -309,7 +315,8 @@ impl PayloadTarget for Target {
 // --------------------------------------------------------------------------
 // sockets
 // --------------------------------------------------------------------------
-pub struct Sock(pub DuplexStream);
+/// One end of an in-memory connection; once `dead` is set nothing can be written through it any more.
+pub struct Sock(pub DuplexStream, pub Arc<std::sync::atomic::AtomicBool>);
 impl AsyncRead for Sock {
     fn poll_read(mut self: Pin<&mut Self>, cx: &mut Context<'_>, buf: &mut ReadBuf<'_>) -> Poll<std::io::Result<()>> {
         Pin::new(&mut self.0).poll_read(cx, buf)
@@ -317,6 +324,9 @@ impl AsyncRead for Sock {
 }
 impl AsyncWrite for Sock {
     fn poll_write(mut self: Pin<&mut Self>, cx: &mut Context<'_>, buf: &[u8]) -> Poll<std::io::Result<usize>> {
+        if self.1.load(std::sync::atomic::Ordering::SeqCst) {
+            return Poll::Ready(Err(std::io::Error::new(std::io::ErrorKind::BrokenPipe, "connection lost")));
+        }
         Pin::new(&mut self.0).poll_write(cx, buf)
     }
     fn poll_flush(mut self: Pin<&mut Self>, cx: &mut Context<'_>) -> Poll<std::io::Result<()>> {
@@ -393,6 +403,8 @@ async fn legacy_server(mut sock: DuplexStream, src: Source, max: u8) -> std::io:
 // --------------------------------------------------------------------------
 struct StepExp {
     ok: bool,
+    /// Some(k): the connection is cut once the server has made k source calls in this step
+    lost_at: Option<u64>,
     state: Option<(u64, u64)>,
     data: BTreeSet<Item>,
     timing: u64,
@@ -413,6 +425,8 @@ fn run_behaviour(c: &Value, serial_base: u32) -> Result<(), (String, String)> {
         calls: 0,
         pending: Vec::new(),
         ready: true,
+        cut_at: None,
+        dead: Default::default(),
     })));
     let mk_state = |s: &Value| -> Option<State> {
         let a = s.as_array()?;
@@ -435,6 +449,7 @@ fn run_behaviour(c: &Value, serial_base: u32) -> Result<(), (String, String)> {
                     std::mem::take(&mut inj),
                     StepExp {
                         ok: true,
+                        lost_at: None,
                         state: Some((st[0].as_u64().unwrap(), st[1].as_u64().unwrap())),
                         data: e["data"].as_array().unwrap().iter().map(item_of).collect(),
                         timing: e["timing"].as_u64().unwrap(),
@@ -442,15 +457,26 @@ fn run_behaviour(c: &Value, serial_base: u32) -> Result<(), (String, String)> {
                     },
                 ));
             }
-            "fail" => steps.push((std::mem::take(&mut inj), StepExp { ok: false, state: None, data: BTreeSet::new(), timing: 0, ver: 0 })),
+            "fail" | "lost" => {
+                let st = e["state"].as_array().unwrap();
+                steps.push((std::mem::take(&mut inj), StepExp {
+                    ok: false,
+                    lost_at: if e["a"] == "lost" { Some(e["at"].as_u64().unwrap()) } else { None },
+                    state: if st.is_empty() { None } else { Some((st[0].as_u64().unwrap(), st[1].as_u64().unwrap())) },
+                    data: e["data"].as_array().unwrap().iter().map(item_of).collect(),
+                    timing: 0,
+                    ver: 0,
+                }))
+            }
             _ => {}
         }
     }
     let rt = tokio::runtime::Builder::new_current_thread().enable_time().start_paused(true).build().unwrap();
     rt.block_on(async move {
         let (a, b) = tokio::io::duplex(1 << 16);
+        let dead = src.0.lock().unwrap().dead.clone();
         let srv = if srv_max >= 2 {
-            let listener = Box::pin(futures_util::stream::iter(vec![Ok::<Sock, std::io::Error>(Sock(b))]));
+            let listener = Box::pin(futures_util::stream::iter(vec![Ok::<Sock, std::io::Error>(Sock(b, dead.clone()))]));
             let server = Server::new(listener, NotifySender::new(), src.clone());
             tokio::spawn(async move {
                 let _ = server.run().await;
@@ -461,13 +487,14 @@ fn run_behaviour(c: &Value, serial_base: u32) -> Result<(), (String, String)> {
                 let _ = legacy_server(b, s2, srv_max).await;
             })
         };
-        let mut client = Client::with_initial_version(cli_init, Sock(a), target, mk_state(&init["state"]));
+        let mut client = Client::with_initial_version(cli_init, Sock(a, Default::default()), target, mk_state(&init["state"]));
         let mut prev_applies = 0;
         for (i, (inj, exp)) in steps.into_iter().enumerate() {
             {
                 let mut s = src.0.lock().unwrap();
                 s.calls = 0;
                 s.pending = inj;
+                s.cut_at = exp.lost_at;
             }
             let r = tokio::time::timeout(std::time::Duration::from_secs(30_000_000), client.step()).await;
             src.0.lock().unwrap().flush();
@@ -479,6 +506,19 @@ fn run_behaviour(c: &Value, serial_base: u32) -> Result<(), (String, String)> {
                 ));
             }
             if !exp.ok {
+                // a failed step hands nothing to the target and leaves the client's state alone (or forgotten after a cache reset)
+                let t = client.target();
+                if t.applies != prev_applies {
+                    return Err(("fail:applied".into(), format!("step {} failed but the target was handed an update", i + 1)));
+                }
+                if t.data != exp.data {
+                    return Err(("fail:data".into(), format!("step {} failed; client data {:?}, specification {:?}", i + 1, t.data, exp.data)));
+                }
+                let want_state = exp.state.map(|(s, n)| (100 + s as u16, serial_base.wrapping_add(n as u32)));
+                let got_state = client.state().map(|s| (s.session(), s.serial().0));
+                if got_state != want_state {
+                    return Err(("fail:state".into(), format!("step {} failed; client state {got_state:?}, specification {want_state:?}", i + 1)));
+                }
                 break;
             }
             let t = client.target();
@@ -568,7 +608,7 @@ pub fn drive(args: &[String]) {
     evlog.lock().unwrap().push(json!({"ev": "init", "v": {"session": 1, "serial": 0, "data": v0.data.iter().map(|i| json!([i.0, i.1, i.2])).collect::<Vec<_>>()},
         "state": init_state, "data": init_data.iter().map(|i| json!([i.0, i.1, i.2])).collect::<Vec<_>>()}));
     let src = Source(Arc::new(Mutex::new(SrcState {
-        evlog: Some(evlog.clone()), hist: vec![v0], timing: 1, window, serial_base, calls: 0, pending: Vec::new(), ready: true,
+        evlog: Some(evlog.clone()), hist: vec![v0], timing: 1, window, serial_base, calls: 0, pending: Vec::new(), ready: true, cut_at: None, dead: Default::default(),
     })));
     let mut target = Target::default();
     target.data = init_data.into_iter().collect();
@@ -580,14 +620,14 @@ pub fn drive(args: &[String]) {
     let failed = rt.block_on(async move {
         let (a, b) = tokio::io::duplex(1 << 16);
         let srv = if srv_max >= 2 {
-            let listener = Box::pin(futures_util::stream::iter(vec![Ok::<Sock, std::io::Error>(Sock(b))]));
+            let listener = Box::pin(futures_util::stream::iter(vec![Ok::<Sock, std::io::Error>(Sock(b, Default::default()))]));
             let server = Server::new(listener, NotifySender::new(), src2.clone());
             tokio::spawn(async move { let _ = server.run().await; })
         } else {
             let s3 = src2.clone();
             tokio::spawn(async move { let _ = legacy_server(b, s3, srv_max).await; })
         };
-        let mut client = Client::with_initial_version(cli_init, Sock(a), target, st0);
+        let mut client = Client::with_initial_version(cli_init, Sock(a, Default::default()), target, st0);
         let mut failed = false;
         for _ in 0..n {
             // schedule 0-3 source updates at random call indices of this step
